@@ -12,7 +12,7 @@ from .c01 import qval, in_core, _nw_list
 ID = 'C04'
 RULE = ('E1 cases = one write (format, modes, input[, element-class vector]) on an existing object with a recording callback; '
         'E2 cases = histories (event sequences) of writes by 3 routes + raw writes, reset, resize, config changes, deep copies, with '
-        'derived results (x+y, x-y, x*y, x/y, x//y, x%y, y-x, sum, Fxp(x)) observed in every state. non-trivial = a write/history in '
+        'derived results (x+y, x-y, x*y, x/y, x//y, x%y, y-x, sum, Fxp(x); and x op w with a flagged second operand) observed in every state. non-trivial = a write/history in '
         'which at least one flag changes or a status callback fires; distinct = distinct (format, modes, input) points resp. distinct '
         'canonical states reached')
 ASSUMPTIONS = ['reference conditions: overflow <=> rounded > hi, underflow <=> rounded < lo, inaccuracy <=> stored*2^-n_frac != input',
@@ -26,7 +26,7 @@ def bounds(tier, seed):
                                'callback log compared; grid n_word in %s x boundary alphabet via arrays'
                                % (4 if tier == 'quick' else 6, 'quick list' if tier == 'quick' else '1..52'),
             'b_array_class_vectors': 'all 4+16+64 vectors over {exact, inexact, over, under} for lengths 1..3 x formats n_word<=3 x 10 modes',
-            'c_histories': 'BFS, 3 base formats x {scalar, array} roots, menu of 29 state-changing events, depth %d with dedup and depth %d '
+            'c_histories': 'BFS, 3 base formats x {scalar, array} roots, menu of 38 state-changing events (incl. writes whose value is an Fxp), depth %d with dedup and depth %d '
                            'without; 9 derived-result observations in every state' % ((4, 2) if tier == 'quick' else (6, 3)),
             'seed': seed}
 
@@ -145,6 +145,10 @@ def menu():
             evs.append(('w', c, rt))
     for c in ('hi', 'hi+1', 'lo-1', 'hi+.5', 'lo-.5'):
         evs.append(('raw', c))
+    # the written value is itself a fixed-point object: same format / finer format, clean / carrying inaccuracy
+    for rt in WRITE_ROUTES:
+        for kind in ('same', 'finer', 'same_flagged'):
+            evs.append(('wfxp', kind, rt))
     evs.append(('reset',))
     for k in ('same', 'wider', 'narrower'):
         evs.append(('resize', k))
@@ -166,6 +170,7 @@ class System:
 
     def __init__(self, root):
         self.root = root
+        self._derived = set()
 
     def reset(self):
         reset_class_state()
@@ -227,6 +232,47 @@ class System:
                     errs.append(('callbacks', 'event %r: callbacks %s expected %s' % (ev, log, expected_log(eo, eu, ei))))
                 if codes(x)[0] != ec:
                     errs.append(('code', 'event %r stored %d expected %d' % (ev, codes(x)[0], ec)))
+        elif ev[0] == 'wfxp':
+            fmt = st.fmt
+            kind, route = ev[1], ev[2]
+            if kind == 'finer':
+                sf = Fmt(fmt.signed, fmt.n_word + 2, fmt.n_frac + 2)
+                src = Fxp(4 * fmt.hi + 1, sf.signed, sf.n_word, sf.n_frac, raw=True)          # hi + 1/4 LSB of the destination
+                d = qval(4 * fmt.hi + 1, fmt)
+            else:
+                src = Fxp(fmt.hi - 1 if fmt.hi > 0 else fmt.hi, fmt.signed, fmt.n_word, fmt.n_frac, raw=True)
+                d = qval(4 * (fmt.hi - 1 if fmt.hi > 0 else fmt.hi), fmt)
+            if kind == 'same_flagged':
+                src.status['inaccuracy'] = True          # as left by an earlier inexact store into src
+            ec, eo, eu, ei, _ = quantize(d, fmt, st.rounding, st.overflow)
+            ei = ei or kind == 'same_flagged'
+            del st.rec.log[:]
+            if st.kind == 'scalar':
+                if route == 'set_val':
+                    x.set_val(src)
+                elif route == 'call':
+                    x(src)
+                else:
+                    x[()] = src
+            else:
+                src2 = Fxp([codes(src)[0], 0], src.signed, src.n_word, src.n_frac, raw=True)      # keeps the destination's shape
+                if kind == 'same_flagged':
+                    src2.status['inaccuracy'] = True
+                if route == 'set_val':
+                    x.set_val(src2)
+                elif route == 'call':
+                    x(src2)
+                else:
+                    x[0] = src
+            st.mflags = (st.mflags[0] or eo, st.mflags[1] or eu, st.mflags[2] or ei)
+            if last:
+                log = sorted(st.rec.log)
+                want = expected_log(eo, eu, ei and kind != 'same_flagged')
+                if log.count('change') != 1 or [l for l in log if l != 'inaccuracy'] != [l for l in want if l != 'inaccuracy'] or \
+                        (kind != 'same_flagged' and log != want):
+                    errs.append(('callbacks', 'event %r: callbacks %s expected %s' % (ev, log, want)))
+                if codes(x)[0] != ec:
+                    errs.append(('code', 'event %r stored %d expected %d' % (ev, codes(x)[0], ec)))
         elif ev[0] == 'reset':
             x.reset()
             st.mflags = (False, False, False)
@@ -265,7 +311,7 @@ class System:
             raise ValueError(ev)
         if last:
             st.errors = errs
-            st.changed = flags(st.x) != before or (ev[0] in ('w', 'raw') and len(st.rec.log) > 1)
+            st.changed = flags(st.x) != before or (ev[0] in ('w', 'raw', 'wfxp') and len(st.rec.log) > 1)
 
     def canon(self, st):
         x = st.x
@@ -288,8 +334,11 @@ class System:
                                                                                      st.fmt.dtype, st.rounding, st.overflow), {'part': 'c'})
         if 'extended_prec' not in x.status:
             acc.violation('reset_record', case, 'status record lost extended_prec: %r' % (x.status,), {'part': 'c'})
-        # derived results observed in this state
-        self.derive(st, h, acc, case)
+        # derived results observed in this state (they depend on the canonical state only: once per canonical state)
+        k = self.canon(st)
+        if k not in self._derived:
+            self._derived.add(k)
+            self.derive(st, h, acc, case)
         acc.sample(case, 1)
 
     def derive(self, st, h, acc, case):
@@ -314,6 +363,20 @@ class System:
             acc.outcome('derived_inacc' if inacc else 'derived_clean')
         if flags(x) != before:
             acc.violation('operand_mutated', case, 'deriving results changed the operand flags %s -> %s' % (before, flags(x)), {'part': 'c'})
+        # the flag must also travel from the SECOND operand, whatever x carries
+        w = Fxp(0.3, True, 8, 2)                      # 0.3 is inexact in s8/2 -> w carries inaccuracy
+        for name, f in (('x+w', lambda: x + w), ('x*w', lambda: x * w), ('x-w', lambda: x - w), ('x/w', lambda: x / w), ('x//w', lambda: x // w),
+                        ('x%w', lambda: x % w)):
+            acc.transitions += 1
+            try:
+                z = f()
+            except Exception as e:
+                acc.violation('exception', dict(case, derive=name), 'history %s: %s raised %r' % (case['history'], name, e), {'part': 'c', 'derive': name})
+                continue
+            if not z.status['inaccuracy']:
+                acc.violation('propagation', dict(case, derive=name), 'history %s: second operand carries inaccuracy but %s does not'
+                              % (case['history'], name), {'part': 'c', 'derive': name})
+            acc.outcome('derived_from_second')
 
 
 # ------------------------------------------------------------------------------------------ driver
